@@ -85,7 +85,7 @@ func stdlib(v string) answers {
 	_, e = time.Parse(time.DateOnly, v)
 	a.Date = e == nil
 	u, e := googleuuid.Parse(v)
-	a.UUID = e == nil && u.Variant() == googleuuid.RFC4122
+	a.UUID = e == nil && u.Variant() == googleuuid.RFC4122 && (len(v) != 38 || (v[0] == '{' && v[37] == '}'))
 	return a
 }
 
@@ -639,9 +639,6 @@ func checkFormat(res *vh.Result, c FCase, ok bool, name string, a answers, witne
 			// accepted because the corrupted string still begins alnum -* alnum or ends in a letter
 			sig = "format/hostname/accepts-corrupted:prefix-of-two-alphanumerics-or-letter-at-the-end"
 		}
-		if c.Format == "uuid" && c.Op == "brace-replaced" && len(c.Value) == 38 {
-			sig = "format/uuid/accepts-corrupted:38-byte-form-first-or-last-byte-replaced"
-		}
 		if c.Format == "uri" && c.Op == "bad-percent-escape-in-query-or-opaque-part" {
 			sig = "format/uri/accepts-corrupted:bad-percent-escape-in-query-or-opaque-part"
 		}
@@ -683,6 +680,7 @@ func fixedFormatCorpus() []FCase {
 		v("date-time", "2015-10-26T08:31:23Z"), x("date-time", "201510-26T08:31:23Z", "corpus-invalid"),
 		v("uuid", "6ba7b810-9dad-11d1-80b4-00c04fd430c8"), v("uuid", "{6ba7b810-9dad-11d1-80b4-00c04fd430c8}"),
 		v("uuid", "6ba7b8109dad11d180b400c04fd430c8"), v("uuid", "urn:uuid:6ba7b810-9dad-11d1-80b4-00c04fd430c8"),
+		x("uuid", "X6ba7b810-9dad-11d1-80b4-00c04fd430c8Y", "brace-replaced"), x("uuid", "{6ba7b810-9dad-11d1-80b4-00c04fd430c8)", "brace-replaced"),
 		x("uuid", "96054a62-a9e45ed26688389b", "corpus-invalid"), x("uuid", "123e4567-e89b-12d3-a456-42661417400g", "corpus-invalid"),
 		v("email", "raphael@goa.design"), x("email", "foo", "corpus-invalid"),
 		v("hostname", "goa.design"), x("hostname", "_hi_", "corpus-invalid"),
@@ -707,7 +705,6 @@ func findingWitnesses(r *vh.RNG) []FCase {
 		hx("-a", "aa", "leading-hyphen-label"),
 		{Format: "hostname", Value: "a.b9", Expect: 1, Op: "valid"},
 		{Format: "hostname", Value: "x.y.z1", Expect: 1, Op: "valid"},
-		{Format: "uuid", Value: "X6ba7b810-9dad-11d1-80b4-00c04fd430c8Y", Expect: -1, Op: "brace-replaced", Base: "{6ba7b810-9dad-11d1-80b4-00c04fd430c8}"},
 	}
 	for k := 0; k < 40; k++ {
 		c := genHostname(r)
@@ -715,9 +712,6 @@ func findingWitnesses(r *vh.RNG) []FCase {
 		if inHostnameFinding(c) {
 			out = append(out, c)
 		}
-	}
-	for k := 0; k < 10; k++ {
-		out = append(out, uuidBraceWitness(r))
 	}
 	out = append(out, FCase{Format: "uri", Value: "http://goa.design/?q=%zz", Expect: -1, Op: "bad-percent-escape-in-query-or-opaque-part", Base: "http://goa.design/?q=1"})
 	for k := 0; k < 10; k++ {
